@@ -81,6 +81,10 @@ def sweep_scenarios(quick, seed):
     # the size policy's victim, at exactly its deadline, revived by a reader between the eviction callback and the removal in the table
     for ttl in (3 * TICK, 10 * TICK):
         out.append({"ttl": ttl, "jump": 0, "later": 0, "op": "gate.size", "sized": 1, "syncexec": 1, "warm": 0, "max": 0})
+    # ... and with an executor that does not get round to anything while the writes arrive (the write buffer overflows: the writers run the
+    # maintenance themselves and hand it their own event)
+    for k in range(2):
+        out.append({"ttl": TICK, "jump": 10 * TICK, "later": 0, "op": "mass.stall", "sized": k, "syncexec": 0, "warm": 1, "max": 0})
     # a write that finds the entry expired, while a reader stores an extended deadline into the node being replaced
     k = 0
     for ttl in (3 * TICK, 10 * TICK):
